@@ -592,6 +592,37 @@ impl<'a> MCtx<'a> {
         dirs_mut(&mut doc, &s.r)[i].args.push(Arg::new("zz_unknown", Val::Int("1".into(), p0())));
         Some(Mutant { doc, label: self.label("5.4.1", &format!("{}/directive-arg", s.class), "unknown-directive-argument") })
     }
+    /// a second argument with the name of an existing one and a value of the wrong type: the value violates
+    /// 5.6.1 (and the repetition 5.4.2)
+    pub fn duplicate_argument_wrong_value(&mut self) -> Option<Mutant> {
+        let mut c = vec![];
+        for s in self.sites.sels.iter().filter(|s| self.ok_def(s.r.def)) {
+            if let (Some(p), Sel::Field { name, args, .. }) = (&s.parent, self.get_sel(&s.r)) {
+                if let Some(fd) = self.sch.field_def(p, &name) {
+                    for (i, a) in args.iter().enumerate() {
+                        if let Some(d) = fd.args.iter().find(|d| d.name == a.name) {
+                            if BUILTIN_SCALARS.contains(&d.ty.unwrapped()) {
+                                c.push((s.clone(), i, d.ty.unwrapped().to_string()));
+                            }
+                        }
+                    }
+                }
+            }
+        }
+        let (s, i, tyname) = pick(self.rng, &c)?;
+        let wrong = match tyname.as_str() {
+            "Boolean" => Val::Int("1".into(), p0()),
+            "Int" | "Float" => Val::Str("wrong".into(), p0()),
+            "String" => Val::Int("1".into(), p0()),
+            _ => Val::Bool(true, p0()),
+        };
+        let mut doc = self.doc.clone();
+        if let Sel::Field { args, .. } = sel_mut(&mut doc, &s.r) {
+            let name = args[i].name.clone();
+            args.push(Arg::new(&name, wrong));
+        }
+        Some(Mutant { doc, label: self.label("5.4.2", &format!("{}/repeated-argument", s.class), "duplicate-argument-wrong-value") })
+    }
     pub fn drop_required_argument(&mut self) -> Option<Mutant> {
         let mut c = vec![];
         for s in self.sites.sels.iter().filter(|s| self.ok_def(s.r.def)) {
@@ -1129,12 +1160,13 @@ impl<'a> MCtx<'a> {
     }
 }
 
-pub const MUTATIONS: [&str; 33] = [
+pub const MUTATIONS: [&str; 34] = [
     "rename-field",
     "subselection-on-leaf",
     "drop-subselection",
     "unknown-argument",
     "unknown-directive-argument",
+    "duplicate-argument-wrong-value",
     "drop-required-argument",
     "drop-required-directive-argument",
     "wrong-literal-type",
@@ -1172,6 +1204,7 @@ pub fn apply(name: &str, ctx: &mut MCtx) -> Option<Mutant> {
         "drop-subselection" => ctx.drop_subselection(),
         "unknown-argument" => ctx.unknown_argument(),
         "unknown-directive-argument" => ctx.unknown_directive_argument(),
+        "duplicate-argument-wrong-value" => ctx.duplicate_argument_wrong_value(),
         "drop-required-argument" => ctx.drop_required_argument(),
         "drop-required-directive-argument" => ctx.drop_required_directive_argument(),
         "wrong-literal-type" => ctx.wrong_literal(),
